@@ -38,7 +38,9 @@ func TestC03SizeCap(t *testing.T) {
 		if wantOK {
 			outcome = "accepted"
 		}
-		ev.Case(true, fmt.Sprint(L), func() any { return map[string]any{"length_field": L, "distance_from_cap": L - capLen, "expected": outcome} }, "c03cap:"+outcome)
+		ev.Case(true, fmt.Sprint(L), func() any {
+			return map[string]any{"length_field": L, "distance_from_cap": L - capLen, "expected": outcome}
+		}, "c03cap:"+outcome)
 		d1, e1 := hsms.DecodeHSMSMessage(frame)
 		d2, e2 := hsms.DecodeHSMSPayload(frame[4:])
 		d3, e3 := hsms.DecodeOwnedHSMSPayload(append([]byte(nil), frame[4:]...))
